@@ -20,11 +20,13 @@ Sections
   8. an explicit column list: positional wiring (`WC`, `cleanupFoldPos_wired`, `analyze_exact_cols`)
   9. set operations: first group by own names ending in `WC`, later groups by position, `finishBranches` with union barriers
      as a loop over groups (`go_groups`, `finishBranches_groups`, `analyze_exact_setop`)
+ 10. from the edges to `Paths.columnLineage` (`columnLineage_of_pairs`, `columnLineage_of_exact`)
 -/
 import SqlLineage.Proofs.ReadsExact
 import SqlLineage.Proofs.ExportLemmas
 import SqlLineage.Proofs.PermLemmas
 import SqlLineage.Proofs.WriteColsLemmas
+import SqlLineage.Proofs.PathLemmas
 
 set_option linter.unusedSimpArgs false
 set_option linter.unusedVariables false
@@ -1506,9 +1508,18 @@ structure Wired (g1 g : LGraph) (K : List (Node × Node)) : Prop where
   ty : Typed g
   pay : PayOK g
   cnodes : ∀ n, n.isCol = true → n ∈ g.nodes → n ∈ g1.nodes ∨ ∃ p ∈ K, n = p.1 ∨ n = p.2
+  ewf : Paths.WF g
+
+theorem wf_addLin (g : LGraph) (src tgt : Column) (tp : DS × String) (h : Paths.WF g) : Paths.WF (addLin g src tgt tp) := by
+  unfold addLin
+  have t1 := Paths.wf_addEdge g src.key tgt.key .lineage none (some (.col src)) (some (.col tgt)) h
+  have t2 := Paths.wf_addEdge _ (.ds tp.1) tgt.key .hasColumn none (some (.sub tp.2)) (some (.col tgt)) t1
+  cases src.parent? with
+  | none => exact t2
+  | some sp => exact Paths.wf_addEdge _ _ _ _ _ _ _ t2
 
 theorem Wired.base {g1 : LGraph} {tabs : List DObj} {T : DS} (h : ReadBase g1 tabs T) : Wired g1 g1 [] := by
-  refine ⟨Frame.refl g1, ?_, ?_, h.ty, h.pay, fun n _ hn => Or.inl hn⟩
+  refine ⟨Frame.refl g1, ?_, ?_, h.ty, h.pay, fun n _ hn => Or.inl hn, h.wf.edges⟩
   · intro u v hu
     constructor
     · intro he
@@ -1520,7 +1531,7 @@ theorem Wired.base {g1 : LGraph} {tabs : List DObj} {T : DS} (h : ReadBase g1 ta
 theorem Wired.congr {g1 g : LGraph} {K K' : List (Node × Node)} (h : Wired g1 g K) (hk : ∀ x, x ∈ K ↔ x ∈ K') :
     Wired g1 g K' := by
   refine ⟨h.frame, fun u v hu => (h.lin u v hu).trans (hk _), fun u v hu hv => (h.own u v hu hv).trans ?_, h.ty, h.pay,
-    fun n hn hm => (h.cnodes n hn hm).imp id (fun ⟨p, hp, x⟩ => ⟨p, (hk p).mp hp, x⟩)⟩
+    fun n hn hm => (h.cnodes n hn hm).imp id (fun ⟨p, hp, x⟩ => ⟨p, (hk p).mp hp, x⟩), h.ewf⟩
   rw [mem_specOwners, mem_specOwners]
   constructor
   · rintro (h1 | ⟨p, hp, x⟩)
@@ -1534,7 +1545,7 @@ theorem Wired.step {g1 g : LGraph} {K : List (Node × Node)} (h : Wired g1 g K) 
     (htp : tgt.parent? = some tp) (hs : colOK src) (ht : colOK tgt) :
     Wired g1 (addLin g src tgt tp) (K ++ [(src.key, tgt.key)]) := by
   refine ⟨h.frame.trans (frame_addLin g src tgt tp), ?_, ?_, typed_addLin g src tgt tp h.ty,
-    payOK_addLin g src tgt tp h.pay hs ht, ?_⟩
+    payOK_addLin g src tgt tp h.pay hs ht, ?_, wf_addLin g src tgt tp h.ewf⟩
   rotate_left 2
   · intro n hn hm
     rcases mem_nodes_addLin g src tgt tp n hm with h1 | h1 | h1 | h1
@@ -2150,6 +2161,7 @@ structure EdgesExact (g : LGraph) (K : List (Node × Node)) (tabs : List DObj) (
   hasColumn : ∀ u v, ((u, v) ∈ g.edges ∧ g.ety u v = some .hasColumn) ↔ (u, v) ∈ O0 ∨ (u, v) ∈ specOwners K
   hasAlias : ∀ u v, ((u, v) ∈ g.edges ∧ g.ety u v = some .hasAlias) ↔ aliasPair tabs u v
   noRename : ∀ u v, (u, v) ∈ g.edges → g.ety u v ≠ some .rename
+  wf : Paths.WF g
 
 theorem edgesExact_of_wired {g1 g2 : LGraph} {K : List (Node × Node)} {tabs : List DObj} {T : DS} {O0 : List (Node × Node)}
     (hb : ReadBase g1 tabs T) (hw : Wired g1 g2 K) (hK : ∀ p ∈ K, p.1.isCol = true)
@@ -2158,7 +2170,7 @@ theorem edgesExact_of_wired {g1 g2 : LGraph} {K : List (Node × Node)} {tabs : L
   have halias : ∀ u v, aliasPair tabs u v → u.isCol = false ∧ v.isCol = false := by
     rintro u v ⟨o, _, a, _, hu, hv⟩
     rw [hu, hv]; exact ⟨rfl, rfl⟩
-  refine ⟨?_, ?_, ?_, ?_⟩
+  refine ⟨?_, ?_, ?_, ?_, hw.ewf⟩
   · intro u v
     constructor
     · rintro ⟨he, hy⟩
@@ -2214,7 +2226,8 @@ theorem edgesExact_of_wired {g1 g2 : LGraph} {K : List (Node × Node)} {tabs : L
 
 /-- composing the target holder `G` (whose edges are all in the select holder `h` already) changes no edge and no type -/
 theorem edgesExact_compose (G h : LGraph) (K : List (Node × Node)) (tabs : List DObj) (O0 : List (Node × Node))
-    (hsub : ∀ e ∈ G.edges, e ∈ h.edges) (hx : EdgesExact h K tabs O0) : EdgesExact (G.compose h) K tabs O0 := by
+    (hsub : ∀ e ∈ G.edges, e ∈ h.edges) (hG : Paths.WF G) (hx : EdgesExact h K tabs O0) :
+    EdgesExact (G.compose h) K tabs O0 := by
   have hE : ∀ e, e ∈ (G.compose h).edges ↔ e ∈ h.edges := by
     intro e
     rw [mem_edges_compose]
@@ -2230,7 +2243,7 @@ theorem edgesExact_compose (G h : LGraph) (K : List (Node × Node)) (tabs : List
         rw [Graph.ety_of_mem h u v hm] at hh; cases hh
       simp only
       exact Graph.ety_of_not_mem G u v (fun hm => this (hsub _ hm))
-  refine ⟨?_, ?_, ?_, ?_⟩
+  refine ⟨?_, ?_, ?_, ?_, Paths.wf_compose G h hG hx.wf⟩
   · intro u v; rw [hE, hY]; exact hx.lineage u v
   · intro u v; rw [hE, hY]; exact hx.hasColumn u v
   · intro u v; rw [hE, hY]; exact hx.hasAlias u v
@@ -2255,6 +2268,7 @@ theorem exWriteQuery_exact (env : Env) (isInsert : Bool) (tgt : List String) (d 
       EdgesExact g (specPairs env tgt its frm) (fromTabs env frm) [] := by
   obtain ⟨g2, hg, hb, hbE, hw⟩ := exWriteQuery_wired env isInsert tgt d its frm wh grp hav hp hfrag
   refine ⟨_, hg, edgesExact_compose _ _ _ _ _ (by intro e he; rw [g0_edges] at he; cases he)
+    (by intro e he; rw [g0_edges] at he; cases he)
     (edgesExact_of_wired hb hw (fun p hp' => (specPairs_isCol env tgt its frm p hp').1) ?_ (by intro p hp'; cases hp'))⟩
   intro u v
   rw [hbE]; simp
@@ -3056,6 +3070,7 @@ theorem exWriteQueryCols_exact (env : Env) (isInsert : Bool) (tgt : List String)
           exact this.2 r0 hr0)
       exact ⟨hk.1, fun y hy => ⟨(hk.2 y hy).1, (hk.2 y hy).2 _ rfl⟩⟩)
   refine ⟨_, ?_, edgesExact_compose (addWriteColumns (g0 ⟨.table s nm, al⟩) (cs.map listColumn)) g2 _ _ _ ?_
+    (wf_addWriteColumns _ _ (g0_wf _)).edges
     (edgesExact_of_wired hb (hw2.congr ?_) (specPairsPos_isCol env tgt cs its frm) ?_ ?_)⟩
   · rw [exWriteQuery_eq]
     unfold wq0
@@ -3880,7 +3895,7 @@ theorem exWriteQueryUnion_exact (env : Env) (isInsert : Bool) (tgt : List String
             simp only [Function.comp, tgtCol, hd, hprinted]
           rw [← this]; exact (unionBranchPairs_spec env tgt b1.1 b x).mpr hx
     refine ⟨(g0 (mkTable env tgt none)).compose g2, ?_, edgesExact_compose (g0 (mkTable env tgt none)) g2 _ _ _
-      (by intro e he; rw [g0_edges] at he; cases he)
+      (by intro e he; rw [g0_edges] at he; cases he) (by intro e he; rw [g0_edges] at he; cases he)
       (edgesExact_of_wired hb hwfin (specPairsUnion_isCol env tgt (b1 :: restp)) ?_ (by intro p hp'; cases hp'))⟩
     · rw [exWriteQuery_eq]
       unfold wq0
@@ -3969,6 +3984,283 @@ theorem mem_unionBranchPairs (env : Env) (tgt : List String) (its1 : List Item) 
   · rintro ⟨e, a, k, it1, hii, r, hr, h1, h2⟩
     refine ⟨(.mk e a k, it1), hii, List.mem_flatMap.mpr ⟨r, hr, List.mem_map.mpr ⟨u, h1, ?_⟩⟩⟩
     rw [h2]
+
+
+/-! ## 10. from the LINEAGE edges to `get_column_lineage()`: when no target column is a source column, the paths are the pairs -/
+
+theorem colParent_eq : ∀ n, Paths.colParent n = colParent n
+  | .ds _ => rfl
+  | .col _ _ => rfl
+  | .str _ => rfl
+
+/-- a holder whose column→column edges are `K`, every pair going from a column NOT owned by `T` to a column owned by the
+    table `T`: `get_column_lineage()` reports exactly the two‑node paths `[u, v]`, `(u, v) ∈ K` -/
+theorem columnLineage_of_pairs (g : LGraph) (K : List (Node × Node)) (T : DS) (hT : T.isTable = true) (hwf : Paths.WF g)
+    (hlin : ∀ u v, u.isCol = true → ((u, v) ∈ g.edges ↔ (u, v) ∈ K))
+    (hK : ∀ p ∈ K, p.1.isCol = true ∧ colParent p.1 ≠ some T ∧ p.2.isCol = true ∧ colParent p.2 = some T)
+    (p : List Node) : p ∈ Paths.columnLineage g ↔ ∃ u v, (u, v) ∈ K ∧ p = [u, v] := by
+  have hsrc : ∀ u v, (u, v) ∈ K → ∀ w, (w, u) ∉ K := by
+    intro u v h1 w h2
+    exact (hK _ h1).2.1 (hK _ h2).2.2.2
+  rw [Paths.mem_columnLineage]
+  constructor
+  · rintro ⟨s, hs, t, _, hp, hl⟩
+    obtain ⟨h1, _, h3, _⟩ := Paths.simplePaths_sound g s t p hp
+    obtain ⟨_, hsc, _⟩ := (Paths.mem_roots g s).mp hs
+    match p, h1, h3, hl with
+    | [a], _, _, hl => simp at hl
+    | a :: b :: r, h1, h3, _ =>
+      simp only [List.head?_cons, Option.some.injEq] at h1
+      subst h1
+      have hab : (a, b) ∈ K := (hlin a b hsc).mp h3.1
+      cases r with
+      | nil => exact ⟨a, b, hab, rfl⟩
+      | cons c r' =>
+        have hbc : (b, c) ∈ K := (hlin b c (hK _ hab).2.2.1).mp h3.2.1
+        exact absurd hab (hsrc b c hbc a)
+  · rintro ⟨u, v, huv, rfl⟩
+    have he : (u, v) ∈ g.edges := (hlin u v (hK _ huv).1).mpr huv
+    have hu : u ∈ Paths.roots g := by
+      rw [Paths.mem_roots]
+      refine ⟨(hwf _ he).1, (hK _ huv).1, fun w hw => ?_⟩
+      cases hwc : w.isCol with
+      | false => rfl
+      | true => exact absurd ((hlin w u hwc).mp hw) (hsrc u v huv w)
+    have hv : v ∈ Paths.leaves g := by
+      rw [Paths.mem_leaves]
+      refine ⟨(hwf _ he).2, (hK _ huv).2.2.1, fun w hw => ?_, T, ?_, hT⟩
+      · exact absurd huv (hsrc v w ((hlin v w (hK _ huv).2.2.1).mp hw) u)
+      · rw [colParent_eq]; exact (hK _ huv).2.2.2
+    refine ⟨u, hu, v, hv, ?_, by simp⟩
+    apply Paths.simplePaths_complete g hwf u v [u, v] (hwf _ he).1 rfl rfl ⟨he, trivial⟩
+    have hne : u ≠ v := by
+      intro e
+      have := (hK _ huv).2.1
+      rw [e] at this
+      exact this (hK _ huv).2.2.2
+    simp [hne]
+
+/-- the sources the specification names are not owned by the written table (when it is not read and no qualifier denotes it) -/
+theorem srcKeys_notT (imp : String) (tabs : List DObj) (T : DS) (hself : ∀ o ∈ tabs, o.d ≠ T) (r : String × Option String)
+    (hr : refOKn imp tabs (some T) r = true) : ∀ x ∈ srcKeys imp tabs r, colParent x ≠ some T := by
+  intro x hx
+  unfold srcKeys at hx
+  split at hx
+  · obtain ⟨d, hd, rfl⟩ := List.mem_map.mp hx
+    unfold denoted at hd
+    obtain ⟨v, hv, rfl⟩ := List.mem_map.mp hd
+    obtain ⟨kk, hkk⟩ := mem_amValues_sub _ v hv
+    obtain ⟨_, _, o, ho, hod⟩ := specAliasMap_value _ _ (amGet_mem _ _ _ hkk)
+    intro hc
+    have : v.1 = T := by
+      unfold starKey at hc
+      rw [colParent_key] at hc
+      simpa [Column.mk1, Column.parent?] using hc
+    simp only at hod
+    exact hself o ho (hod.trans this)
+  · simp only [List.mem_singleton] at hx
+    subst hx
+    rw [colParent_key]
+    obtain ⟨rn, rq⟩ := r
+    cases rq with
+    | some q =>
+      simp only [refOKn, bne_iff_ne] at hr
+      simpa [srcCol, Column.mk1, Column.parent?] using hr
+    | none =>
+      match tabs, hself with
+      | [t], hself =>
+        have := hself t (by simp)
+        simpa [srcCol, Column.mk1, Column.parent?] using this
+      | [], _ => simp [srcCol, Column.mk1, Column.parent?]
+      | _ :: _ :: _, _ => simp [srcCol, Column.mk1, Column.parent?]
+
+theorem tgtCol_parent (env : Env) (tgt : List String) (it : Item) :
+    colParent (tgtCol env tgt it).key = some (mkTable env tgt none).d := rfl
+
+theorem specPairs_bipartite (env : Env) (tgt : List String) (its : List Item) (frm : List FromExpr)
+    (hself : ∀ o ∈ fromTabs env frm, o.d ≠ (mkTable env tgt none).d)
+    (hits : its.all (itemOK env.importDefault (fromTabs env frm) (some (mkTable env tgt none).d)) = true) :
+    ∀ p ∈ specPairs env tgt its frm, p.1.isCol = true ∧ colParent p.1 ≠ some (mkTable env tgt none).d ∧
+      p.2.isCol = true ∧ colParent p.2 = some (mkTable env tgt none).d := by
+  rintro ⟨u, v⟩ hp
+  obtain ⟨e, a, k, hit, r, hr, hu, hv⟩ := (mem_specPairs env tgt its frm u v).mp hp
+  have hi := List.all_eq_true.mp hits _ hit
+  simp only [itemOK, Bool.and_eq_true, List.all_eq_true] at hi
+  refine ⟨srcKeys_isCol _ _ _ u hu, srcKeys_notT _ _ _ hself _ (hi.2 r hr) u hu, ?_, ?_⟩
+  · simp only; rw [hv]; rfl
+  · simp only; rw [hv]; rfl
+
+theorem specPairsPos_bipartite (env : Env) (tgt : List String) (cs : List String) (its : List Item) (frm : List FromExpr)
+    (hself : ∀ o ∈ fromTabs env frm, o.d ≠ (mkTable env tgt none).d)
+    (hits : its.all (itemOK env.importDefault (fromTabs env frm) (some (mkTable env tgt none).d)) = true) :
+    ∀ p ∈ specPairsPos env tgt cs its frm, p.1.isCol = true ∧ colParent p.1 ≠ some (mkTable env tgt none).d ∧
+      p.2.isCol = true ∧ colParent p.2 = some (mkTable env tgt none).d := by
+  rintro ⟨u, v⟩ hp
+  obtain ⟨e, a, k, c, hic, r, hr, hu, hv⟩ := (mem_specPairsPos env tgt cs its frm u v).mp hp
+  have hit : Item.mk e a k ∈ its := (List.of_mem_zip hic).1
+  have hi := List.all_eq_true.mp hits _ hit
+  simp only [itemOK, Bool.and_eq_true, List.all_eq_true] at hi
+  refine ⟨srcKeys_isCol _ _ _ u hu, srcKeys_notT _ _ _ hself _ (hi.2 r hr) u hu, ?_, ?_⟩
+  · simp only; rw [hv]; rfl
+  · simp only; rw [hv]; rfl
+
+theorem specPairsUnion_bipartite (env : Env) (tgt : List String) (parts : List (List Item × List FromExpr))
+    (hself : ∀ b ∈ parts, ∀ o ∈ fromTabs env b.2, o.d ≠ (mkTable env tgt none).d)
+    (hits : ∀ b ∈ parts, b.1.all (itemOK env.importDefault (fromTabs env b.2) (some (mkTable env tgt none).d)) = true) :
+    ∀ p ∈ specPairsUnion env tgt parts, p.1.isCol = true ∧ colParent p.1 ≠ some (mkTable env tgt none).d ∧
+      p.2.isCol = true ∧ colParent p.2 = some (mkTable env tgt none).d := by
+  rintro ⟨u, v⟩ hp
+  cases parts with
+  | nil => cases hp
+  | cons b1 rest =>
+    simp only [specPairsUnion, List.mem_append, List.mem_flatMap] at hp
+    rcases hp with hp | ⟨b, hb, hp⟩
+    · exact specPairs_bipartite env tgt b1.1 b1.2 (hself b1 (by simp)) (hits b1 (by simp)) _ hp
+    · obtain ⟨e, a, k, it1, hii, r, hr, hu, hv⟩ := (mem_unionBranchPairs env tgt b1.1 b u v).mp hp
+      have hit : Item.mk e a k ∈ b.1 := (List.of_mem_zip hii).1
+      have hi := List.all_eq_true.mp (hits b (by simp [hb])) _ hit
+      simp only [itemOK, Bool.and_eq_true, List.all_eq_true] at hi
+      refine ⟨srcKeys_isCol _ _ _ u hu, srcKeys_notT _ _ _ (hself b (by simp [hb])) _ (hi.2 r hr) u hu, ?_, ?_⟩
+      · simp only; rw [hv]; rfl
+      · simp only; rw [hv]; rfl
+
+/-- from `EdgesExact` to the paths -/
+theorem columnLineage_of_exact {g : LGraph} {K : List (Node × Node)} {tabs : List DObj} {O0 : List (Node × Node)}
+    (hx : EdgesExact g K tabs O0) (T : DS) (hT : T.isTable = true)
+    (hK : ∀ p ∈ K, p.1.isCol = true ∧ colParent p.1 ≠ some T ∧ p.2.isCol = true ∧ colParent p.2 = some T)
+    (hO : ∀ p ∈ O0, p.1.isCol = false)
+    (p : List Node) : p ∈ Paths.columnLineage g ↔ ∃ u v, (u, v) ∈ K ∧ p = [u, v] := by
+  apply columnLineage_of_pairs g K T hT hx.wf _ hK
+  intro u v hu
+  rw [← hx.lineage u v]
+  constructor
+  · intro he
+    refine ⟨he, ?_⟩
+    -- an edge out of a column node is a LINEAGE edge: it is no HAS_COLUMN / HAS_ALIAS / RENAME edge
+    have hy := Graph.ety_of_mem g u v he
+    cases ht : g.etype u v with
+    | lineage => rw [hy, ht]
+    | hasColumn =>
+      exfalso
+      rcases (hx.hasColumn u v).mp ⟨he, by rw [hy, ht]⟩ with h1 | h1
+      · have := hO _ h1
+        simp only at this
+        rw [this] at hu; cases hu
+      · obtain ⟨q, _, ⟨d, _, hq⟩ | ⟨d, _, hq⟩⟩ := (mem_specOwners K (u, v)).mp h1
+        · have : u = .ds d := congrArg Prod.fst hq
+          rw [this] at hu; cases hu
+        · have : u = .ds d := congrArg Prod.fst hq
+          rw [this] at hu; cases hu
+    | hasAlias =>
+      exfalso
+      obtain ⟨o, _, a, _, h1, _⟩ := (hx.hasAlias u v).mp ⟨he, by rw [hy, ht]⟩
+      rw [h1] at hu; cases hu
+    | rename => exact absurd (by rw [hy, ht]) (hx.noRename u v he)
+  · exact fun h => h.1
+
+
+theorem mkTable_isTable (env : Env) (parts : List String) (alias : Option String) : (mkTable env parts alias).d.isTable = true := rfl
+
+theorem fragStmt_items (env : Env) (s : Stmt) (hs : fragStmt env s = true)
+    (hnr : ∀ o ∈ fromTabs env (stmtFrom s), o.d ≠ (mkTable env (stmtTarget s) none).d) :
+    (stmtItems s).all (itemOK env.importDefault (fromTabs env (stmtFrom s)) (some (mkTable env (stmtTarget s) none).d)) = true := by
+  obtain ⟨d, wh, grp, hav, hf⟩ := fragStmt_select env s hs
+  simp only [fragSelect, Bool.and_eq_true] at hf
+  rw [avoidOf_some _ _ hnr] at hf
+  exact hf.2
+
+theorem fragStmtCols_select (env : Env) (s : Stmt) (hs : fragStmtCols env s = true) :
+    ∃ d wh grp hav, fragSelectCols env (stmtTarget s) (stmtCols s) (.select d (stmtItems s) (stmtFrom s) wh grp hav) = true := by
+  cases s with
+  | insert kd tk tgt cols q br =>
+    cases cols with
+    | none => simp [fragStmtCols] at hs
+    | some cs =>
+      cases q with
+      | setop _ _ => simp [fragStmtCols, fragSelectCols] at hs
+      | withq _ _ => simp [fragStmtCols, fragSelectCols] at hs
+      | select d its frm wh grp hav =>
+        exact ⟨d, wh, grp, hav, by simpa [fragStmtCols, stmtTarget, stmtItems, stmtFrom, stmtCols] using hs⟩
+  | createView tgt orr cols q =>
+    cases cols with
+    | none => simp [fragStmtCols] at hs
+    | some cs =>
+      cases q with
+      | setop _ _ => simp [fragStmtCols, fragSelectCols] at hs
+      | withq _ _ => simp [fragStmtCols, fragSelectCols] at hs
+      | select d its frm wh grp hav =>
+        exact ⟨d, wh, grp, hav, by simpa [fragStmtCols, stmtTarget, stmtItems, stmtFrom, stmtCols] using hs⟩
+  | ctas _ _ _ _ _ => simp [fragStmtCols] at hs
+  | query _ _ => simp [fragStmtCols] at hs
+  | insertValues _ _ _ => simp [fragStmtCols] at hs
+  | createTable _ _ _ => simp [fragStmtCols] at hs
+  | createTableLike _ _ => simp [fragStmtCols] at hs
+  | update _ _ _ _ _ => simp [fragStmtCols] at hs
+  | merge _ _ _ _ _ _ => simp [fragStmtCols] at hs
+  | copy _ _ => simp [fragStmtCols] at hs
+  | drop _ _ _ => simp [fragStmtCols] at hs
+  | alterRename _ _ => simp [fragStmtCols] at hs
+  | renameTable _ => simp [fragStmtCols] at hs
+  | noop _ _ => simp [fragStmtCols] at hs
+  | unsupported _ => simp [fragStmtCols] at hs
+
+theorem fragStmtCols_items (env : Env) (s : Stmt) (hs : fragStmtCols env s = true) :
+    (∀ o ∈ fromTabs env (stmtFrom s), o.d ≠ (mkTable env (stmtTarget s) none).d) ∧
+    (stmtItems s).all (itemOK env.importDefault (fromTabs env (stmtFrom s)) (some (mkTable env (stmtTarget s) none).d)) = true := by
+  obtain ⟨d, wh, grp, hav, hf⟩ := fragStmtCols_select env s hs
+  simp only [fragSelectCols, Bool.and_eq_true, Bool.not_eq_true', List.any_eq_false, beq_iff_eq] at hf
+  exact ⟨fun o ho => by simpa using hf.1.1.1.2 o ho, hf.2⟩
+
+theorem fragStmtSetop_setop (env : Env) (s : Stmt) (hs : fragStmtSetop env s = true) :
+    ∃ first rest, stmtParts s = setopParts first rest ∧ fragSetop env (stmtTarget s) (.setop first rest) = true := by
+  cases s with
+  | insert kd tk tgt cols q br =>
+    cases cols with
+    | some _ => simp [fragStmtSetop] at hs
+    | none =>
+      cases q with
+      | select _ _ _ _ _ _ => simp [fragStmtSetop, fragSetop] at hs
+      | withq _ _ => simp [fragStmtSetop, fragSetop] at hs
+      | setop first rest => exact ⟨first, rest, rfl, by simpa [fragStmtSetop, stmtTarget] using hs⟩
+  | ctas tgt orr ine q br =>
+    cases q with
+    | select _ _ _ _ _ _ => simp [fragStmtSetop, fragSetop] at hs
+    | withq _ _ => simp [fragStmtSetop, fragSetop] at hs
+    | setop first rest => exact ⟨first, rest, rfl, by simpa [fragStmtSetop, stmtTarget] using hs⟩
+  | createView tgt orr cols q =>
+    cases cols with
+    | some _ => simp [fragStmtSetop] at hs
+    | none =>
+      cases q with
+      | select _ _ _ _ _ _ => simp [fragStmtSetop, fragSetop] at hs
+      | withq _ _ => simp [fragStmtSetop, fragSetop] at hs
+      | setop first rest => exact ⟨first, rest, rfl, by simpa [fragStmtSetop, stmtTarget] using hs⟩
+  | query _ _ => simp [fragStmtSetop] at hs
+  | insertValues _ _ _ => simp [fragStmtSetop] at hs
+  | createTable _ _ _ => simp [fragStmtSetop] at hs
+  | createTableLike _ _ => simp [fragStmtSetop] at hs
+  | update _ _ _ _ _ => simp [fragStmtSetop] at hs
+  | merge _ _ _ _ _ _ => simp [fragStmtSetop] at hs
+  | copy _ _ => simp [fragStmtSetop] at hs
+  | drop _ _ _ => simp [fragStmtSetop] at hs
+  | alterRename _ _ => simp [fragStmtSetop] at hs
+  | renameTable _ => simp [fragStmtSetop] at hs
+  | noop _ _ => simp [fragStmtSetop] at hs
+  | unsupported _ => simp [fragStmtSetop] at hs
+
+theorem fragStmtSetop_items (env : Env) (s : Stmt) (hs : fragStmtSetop env s = true) :
+    (∀ b ∈ stmtParts s, ∀ o ∈ fromTabs env b.2, o.d ≠ (mkTable env (stmtTarget s) none).d) ∧
+    (∀ b ∈ stmtParts s, b.1.all (itemOK env.importDefault (fromTabs env b.2) (some (mkTable env (stmtTarget s) none).d)) = true) := by
+  obtain ⟨first, rest, hparts, hf⟩ := fragStmtSetop_setop env s hs
+  rw [hparts]
+  simp only [fragSetop, Bool.and_eq_true, Bool.not_eq_true', List.any_eq_false, beq_iff_eq] at hf
+  obtain ⟨⟨⟨⟨_, hself⟩, hp⟩, _⟩, _⟩ := hf
+  refine ⟨fun b hb o ho => ?_, fun b hb => ?_⟩
+  · have := hself o (List.mem_flatMap.mpr ⟨b, hb, ho⟩)
+    simpa using this
+  · have := List.all_eq_true.mp hp b hb
+    simp only [Bool.and_eq_true] at this
+    exact this.1.2
 
 
 end SqlLineage.ColumnsExact
